@@ -213,11 +213,37 @@ FIRST_WAVE_MISSED.update({
     "C18_t": "type id -1 had been left out of the alphabet because the observer could not tell it from the table's end marker: a slot (-1, n > 0) is an entry, and -1 is published at the places where a sub-message fills up",
     "C19_t": "requests named ordinary ids: 0, 9999, 10000, 12345, -1, -5, INT_MIN, INT_MAX-1 for all four request kinds",
 })
+FIRST_WAVE_MISSED.update({
+    "C01_u": "a subscriber missed at most two messages in a row: 1, 9, 10, 11 and 30 misses in a row (not writable), then writable again - by type, by ALL, as a logger",
+    "C03_v": "requests before the handshake came from connections that stayed: SUBSCRIBE before CONNECT, settled, then the handshake and the end of the stream in one segment",
+    "C04_u": "integer constants never started with a zero: 010 / 0017 (what C reads as octal) and three-digit message ids",
+    "C04_v": "layout options were only passed to compile(): the command line entry point is run with the options in the file / on the command line and what it records is compared with ctypes and gcc",
+    "C05_u": "close() was only called between rounds: it now arrives before every one of the first twelve sends of a round, at log levels DEBUG / INFO / WARNING, with a logger / an everything-subscriber / a subscriber of the log types",
+    "C05_v": "streams of connections refused at CONNECT were not numbered by the check: every kind of refusal, after 0 / 1 / 2 earlier requests",
+    "C06_u": "connections identified themselves in the order they were accepted: X is accepted first, Y connects, then X asks for the same id / name (a third connection in between)",
+    "C07_v": "one logger died per round: two loggers (both listening to everything) found dead by the copy of one acknowledgement, all four fin/rst pairs, all service orders",
+    "C08_u": "every local definition was of the current kind: a legacy definition (plain ctypes fields, @msg_def) at right and wrong sizes among current ones",
+    "C08_v": "undecodable payloads were a few bytes long: an unknown type and a wrong-size frame carrying 1 MiB + 5 bytes, alone, twice, split in two segments",
+    "C09_u": "byte arrays were assigned from bytes, bytearray, lists and tuples: array.array of five codes, ctypes arrays of four widths and memoryviews as carriers, whole and as a slice, one bad value at every position",
+    "C09_v": "values only arrived by assignment: the same out-of-domain array elements arriving through from_dict and from_json, at every position",
+    "C10_u": "objects were converted after they were built, never between two writes: every conversion once, then one in-place write (nested field, array element, struct-array element's field), then every conversion again",
+    "C11_v": "a struct name defined again by a later file: a name conflict, caught by C12's pair matrix from the start (seeded/C11_v/check names C12)",
+    "C12_u": "id clashes and range checks used field-list and signal forms only: messages that take their fields from a struct / from another message are now forms of the clash matrix and of the range cases",
+    "C13_u": "no file carried a YAML directive: a %YAML 1.1 file imported before / after / importing / two levels above a definition that YAML 1.1 reads differently (zero-padded id, fields y / n / on / off)",
+    "C13_v": "no user field was called like the compiler's padding: insert / rename to padding_<i>_ are edits like all others",
+    "C15_u": "every import pointed below the root file's directory: shared definitions in a sibling directory (../shared/...), imported twice",
+    "C15_v": "string constants held letters, blanks and a few signs: apostrophes, quotes inside, percent signs, brackets, separators, a URL",
+    "C16_u": "first run: harness error (the change leaves the process in a directory the check then removes) - now robust. Every closure of the second run is compiled right after a REFUSED compilation, by relative paths; the reused-parser family names its files relatively too",
+    "C16_v": "closures carried no user metadata: eight entries of every value kind in the root file, four in an imported one",
+    "C17_u": "the formatter was only driven through the collection: one formatter object handed every sequence of three batches of 0-3 messages (the last through finalize), and scripts with a flush that carries nothing for a data set",
+    "C17_v": "batches held a handful of messages: single batches of every size up to 64 and around every power of two up to 8192 (16384 thorough) and 100 / 500 / 1000 / 5000 / 10000",
+    "C19_u": "refused requests were left to C06: every kind of refusal (ids beyond both ends of 1..100, taken id / name, the manager's name) after 0 / 2 earlier requests, alone and followed by CONNECT - no acknowledgement, no copy",
+})
 NEUTRALIZED = {"C07_l": "the change made send_client_close() return early when called from inside another CLIENT_CLOSED delivery; the repair of the recursion defect (ac6efbb) announces departures one after the other, so the nested call no longer exists and the early return is never taken (the demonstration passes on the repaired tree)",
                "C17_b": "the change re-ordered the two Event operations of the hand-off; the second data-logger repair made the pair atomic under a lock, so the re-ordering no longer breaks the property (the demonstration passes on the repaired tree)"}
 rows = []
 titles = {}
-for d in sorted(glob.glob(os.path.join(HERE, "seeded", "*_[abcdefghijklmnopqrst]"))):
+for d in sorted(glob.glob(os.path.join(HERE, "seeded", "*_[abcdefghijklmnopqrstuv]"))):
     sid = os.path.basename(d)
     ev = json.load(open(os.path.join(d, "eval.json"))) if os.path.exists(os.path.join(d, "eval.json")) else {}
     notes = open(os.path.join(d, "notes.md")).read() if os.path.exists(os.path.join(d, "notes.md")) else ""
